@@ -173,6 +173,10 @@ NEAR_MISS = [
     "nm: list[list[int]] = [[True]]", "nm: int = x0", "nm: SecretInteger = 1", "nm: list[int] = [[1]]", "nm: list[list[int]] = [1]",
     "nm: int = 1\nnm2: bool = nm", "nm: bool = 1 < 2\nnm2: int = nm", "nm = [1, 2]\nnm[0] = True", "nm = [True]\nnm.append(1)",
     "nm = [1]\nnm.append(1 < 2)", "nm: list[int] = []\nnm.append(True)", "nm = [x0]\nnm.append(Integer(1))",
+    # a variable whose type changes from one iteration of a loop to the next (the body is typed once)
+    "na = Integer(0)\nnm = Integer(0)\nfor i in range(2):\n    nm = na\n    na = x0", "nm = Integer(0)\nfor i in range(2):\n    nm = nm + x0",
+    "nm = 1\nfor i in range(3):\n    nm = [nm]", "na = 1\nnm = 'a'\nfor i in range(2):\n    nm = na\n    na = 'b'",
+    "nm: list[int] = []\nfor i in range(2):\n    nm: list[str] = ['a']", "nm = Integer(1)\nfor i in range(2):\n    for j in range(2):\n        nm = nm * x0",
 ]
 EXPR_ZOO = [
     "x0", "1", "1.5", "1j", "'s'", "b's'", "None", "True", "False", "...", "-x0", "+x0", "-1", "- 1", "-'s'", "+'s'", "not x0", "not True", "~x0", "~1",
@@ -273,8 +277,12 @@ def generate(rng, mode=None):
         body.insert(len(body) - 1, "nu = [nm]")
     elif mode == "nearmiss":
         # an otherwise clean program with exactly one statement that is only just ill-typed, followed by a use of what it bound
-        pos = rng.randrange(1, len(body))
-        stmt = rng.choice(NEAR_MISS)
+        import re as _re
+        decl_end = max([i for i, l in enumerate(body) if _re.match(r"(p\d+|x\d+|k) = ", l)] + [0]) + 1
+        pos = rng.randrange(min(decl_end, len(body) - 1), len(body))
+        # (the list is walked in order — with a random start — so that a run of a few dozen programs uses every entry)
+        generate.nm_next = (getattr(generate, "nm_next", None) if getattr(generate, "nm_next", None) is not None else rng.randrange(len(NEAR_MISS))) + 1
+        stmt = NEAR_MISS[generate.nm_next % len(NEAR_MISS)]
         body.insert(pos, stmt)
         body.insert(pos + 1, rng.choice(["nu = nm", "nu = [nm]", "nu = nm"]))
     if mode in ("typed", "zoo", "corrupt"):
@@ -296,7 +304,7 @@ def generate(rng, mode=None):
     top = []
     if rng.random() < 0.25 and mode != "clean":
         top.append(rng.choice(STMT_ZOO))
-    main = rng.choice(["nada_main", "nada_main", "nada_main", "main"]) if mode != "clean" else "nada_main"
+    main = rng.choice(["nada_main", "nada_main", "nada_main", "main"]) if mode not in ("clean", "nearmiss") else "nada_main"
     src = HEADER + "\n" + "\n".join(helpers) + ("\n" if helpers else "") + "\n".join(top) + ("\n" if top else "") + \
         f"def {main}():\n" + "\n".join(indent(body)) + "\n"
     if rng.random() < 0.15:
